@@ -218,6 +218,17 @@ prop("C16", "A follower's cache is a faithful copy of the leader's stream", "exp
 
 CLUSTER_ASSUME = BASE_ASSUME + ["fake/ClusterSet: cluster double whose nodes share one slot table and answer MOVED / ASK / TRYAGAIN / CROSSSLOT per the cluster specification (MIGRATING/IMPORTING, one-shot ASKING kept through MULTI, queue-time and EXEC-time checks), keys per ref/keyspec, slots per ref/hashslot; a node executes a command only where the specification lets it", "log-only execution with one cluster-wide request sequence"]
 
+TWOSITE_ASSUME = BASE_ASSUME + ["two real-executing doubles with a master-side propagation stream (SELECT on database change, MULTI/EXEC around transactions, 7.x flavour: relative expiries rewritten to absolute ones and a transaction that propagates a single command is not wrapped; no-op commands are not propagated)", "every propagated command carries the connection that caused it; the harness' clients name their connections, so 'written by the tool' is ground truth", "a key's type is fixed by its name (no cross-site type conflicts, which would stop a link for reasons outside this property); expiries are far in the future; database 0 only", "snapshots are built from the live keyspace image taken atomically with the stream offset"]
+
+prop("C13", "Bidirectional sync never echoes its own writes nor swallows foreign ones", "exploration",
+     "a case = propagation flavour {6.x, 7.x} x two links (each: replay mode sync / pipeline / parallel, window 1/4/16, snapshot by RESTORE or by expanded commands) x 0-4 initial keys per site x 2-16 client operations at generated sites (single commands or MULTI/EXEC of 1-4, optionally headed by a marker-shaped SET outside the namespace) over 25 command shapes (SET with PX/EX, SETNX, SETEX, APPEND, MSET, INCR(BY), RPUSH/LPUSH, SADD/SREM, HSET/HDEL, ZADD/ZREM, EXPIRE/PEXPIRE/PERSIST, DEL; many are no-ops depending on state) with values that are marker JSON, marker key names or binary, keys including near misses of the reserved prefixes; the two links are started at generated points of the operation sequence (so that a later link's snapshot contains what the earlier link already wrote), pauses of 0-115 ms (the frontier flush interval is 100 ms). "
+     "non-trivial = distinct case in which a link had both a client-originated unit and a mirrored transaction of the opposite link in its source stream. "
+     "Oracle (ground truth by originating connection): per link, every stream unit behind the snapshot offset that a client caused is applied at the other site exactly once, as one marker transaction with exactly the propagated commands; no unit the tool caused (mirrored transactions, frontier/journal bookkeeping) is applied at the other site; no bookkeeping key of the snapshot is replayed; every other snapshot key is applied once; after the last client write both streams stop growing within 20 s (350 ms of silence).",
+     [{"pkg": "c13", "test": "TestC13",
+       "quick": {"checks": 480, "shards": 16, "timeout": 1200},
+       "thorough": {"checks": 19200, "shards": 16, "timeout": 14400}}],
+     TWOSITE_ASSUME, max_inconclusive=1)
+
 prop("C14", "Bidirectional replay resumes from the contiguous committed prefix", "exploration",
      "a case = target {standalone, 2-3 node cluster with generated bounds} with per-node request latency (0 / 0.3 / 2 / 6 ms, so that lanes complete out of order) x replay mode {sync, pipeline, parallel (0-3 lanes)} x window 1/2/4/16 x stream of 2-14 replay units (single SET or MULTI/EXEC of SETs on one slot, PINGs in between) x 0-2 source pauses (20 / 110 / 130 ms: the frontier is flushed every 100 ms) x 1-4 generated runs plus a final complete run and a final start. A run = (re)start {process: fresh output and namespace resolution; input: same output asked again} + StartPoint + Send from the named offset, with the source having produced a generated prefix of the units (possibly nothing new), ended by {crash: the target processes exactly N more requests, start-up requests included; stop: graceful cancel after N requests; none: everything produced applied, then a 0-230 ms linger}; optionally the n-th journal deletion is answered with an error. fault_points = runs executed. "
      "non-trivial = distinct case in which a start resumed mid-stream after a crash or a mid-way stop. "
